@@ -41,7 +41,7 @@ FILES = {
     "hash/xor_unaligned.go": ["C13"],
     "random/rand.go": ["C15", "C14"],
     "random/chacha20.go": ["C14", "C15"],
-    "bls12381_utils.c": ["C05", "C01", "C04", "C02", "C12", "C07"],
+    "bls12381_utils.c": ["C05", "C01", "C04", "C02", "C12", "C07", "C03", "C06", "C17"],
     "bls_core.c": ["C01", "C02", "C03", "C17"],
     "bls_thresholdsign_core.c": ["C06"],
     "dkg_core.c": ["C07", "C08", "C06"],
